@@ -46,7 +46,9 @@ ALARM = 10.0       # seconds per GenerateRxnNet call
 
 SEEDS = ['C', 'CC', 'CCC', 'C=C', 'CO', 'CCO', 'C=O', '[CH3]', '[CH2]C', '[OH]', 'C[O]', '[CH2]', 'C#C', 'O', '[H][H]',
          'OO', 'CC=O', 'C=CC', 'C1CC1', 'COC', 'N', 'CN', '[CH2]O', '[CH]=C', 'C=C=C', 'OCO', '[H]', 'C-C', 'OC',
-         '[CH3][CH3]', 'CCCC', 'CC(C)C', 'OCCO', 'NCC', 'C(=O)O']
+         '[CH3][CH3]', 'CCCC', 'CC(C)C', 'OCCO', 'NCC', 'C(=O)O',
+         # elements whose highest listed valence exceeds the default valence (S, P): the valence filter must use the default
+         'CS', 'CSC', 'S', 'CP', 'CCS']
 SMARTS = {
     'CH-sc': '[C:1][H:2]>>[C:1].[H:2]',
     'CC-sc': '[C:1][C:2]>>[C:1].[C:2]',
@@ -68,6 +70,10 @@ SMARTS = {
     'deH2-CO': '[H:1][C:2][O:3][H:4]>>[C:2]=[O:3].[H:1][H:4]',
     'H-shift': '[H:3][C:1][C;v3:2]>>[C:1][C:2][H:3]',
     'HH-sc': '[H:1][H:2]>>[H:1].[H:2]',
+    'CS-sc': '[C:1][S:2]>>[C:1].[S:2]',
+    'SH-sc': '[S:1][H:2]>>[S:1].[H:2]',
+    'CS-up': '[C:1][S:2]>>[C:1]=[S:2]',          # over-valent on divalent sulfur unless a hydrogen left first
+    'CP-up': '[C:1][P:2]>>[C:1]=[P:2]',
     'ring-open': '[C:1]1[C:2][C:3]1>>[C:1][C:2][C:3]',
     'ring-q': '[C;R:1][C;R:2]>>[C:1].[C:2]',       # ring primitive: RDKit raises on the unsanitised products (rule error)
 }
@@ -99,6 +105,8 @@ DESIGNED = [
     (['O'], ['CH-sc']), (['CC'], ['CO-up', 'CC-up', 'C=C-up']), (['OO', 'O'], ['any-sc']),
     (['CC', 'C-C'], ['CC-sc']),                   # the same seed written twice (outside the property's quantifier; tie only)
     (['CC', 'CC'], ['CH-sc']), (['C1CC1'], ['ring-q']),
+    (['CS'], ['CS-up', 'CH-sc', 'SH-sc']), (['CSC'], ['CS-up']), (['CSC'], ['CS-up', 'CH-sc']), (['CP'], ['CP-up', 'CH-sc']),
+    (['CCS'], ['CS-sc', 'SH-sc', 'CS-up']),
 ]
 
 
@@ -464,6 +472,28 @@ def random_case(rng, ring):
     return seeds, rules
 
 
+def shared_rule_lists(ctx, ring):
+    """One rule LIST object reused for several networks (GenerateRxnNet parses rule texts in place on the first call, so the
+    later calls run the very same rule objects): every network must equal the one generated with a fresh copy of the texts.
+    Seeds are chosen so that later networks meet species of earlier ones, written with other atom orders."""
+    rule_sets = [['CH-sc', 'CC-sc'], ['CH-sc', 'OH-sc', 'CC-sc'], ['XH-sc', 'CC-sc']]
+    if ring:
+        rule_sets += [['r-CH-sc', 'r-CC-sc'], ['r-XH-sc', 'r-CC-sc'], ['r-CH-sc', 'r-OH-sc', 'r-CC-sc']]
+    seqs = [['CCO', 'CC', 'OCC'], ['CC(C)C', 'CCC', 'C(C)C'], ['CC', 'CCC', 'CC'], ['OCC', 'CCO', 'C(O)C'], ['CCC', 'CC(C)C']]
+    for names in rule_sets:
+        for seq in seqs[:ctx.n(3, 5)]:
+            shared = [rule_text(n) for n in names]
+            for i, seed in enumerate(seq):
+                st, got = run_impl([seed], shared)                      # same list object every time
+                st2, fresh = run_impl([seed], [rule_text(n) for n in names])
+                ctx.case(('shared', tuple(names), tuple(seq), i), None)
+                ctx.count('shared_rule_list_calls')
+                if (st, got) != (st2, fresh):
+                    ctx.violation('the network generated for a seed depends on networks generated earlier with the same rule list',
+                                  {'rules': names, 'seeds_in_order': seq, 'position': i}, expected=[st2, fresh], observed=[st, got])
+                    break
+
+
 def compare_batch(ctx, batch):
     replies = ctx.model([b[0] for b in batch])
     if replies is None:
@@ -510,6 +540,7 @@ def run(ctx):
             check_case(ctx, seeds, [name], batch)
     check_case(ctx, ['CCO'], ['r-XH-sc', 'CC-sc'], batch)      # RING text and SMARTS mixed in one rule list
     error_cases(ctx, batch)
+    shared_rule_lists(ctx, ring)
     for _ in range(ctx.n(500, 6000)):
         if ctx.time_left() < 120:
             ctx.count('stopped_for_time')
